@@ -455,6 +455,62 @@ def make_dc():
     return fn
 
 
+# ------------------------------------------------------------------------------------------------- three-winding transformer
+def make_trafo3w(loss_side="hv"):
+    """documented star equivalent of the three-winding transformer: the three equivalent two-winding transformers reproduce the three
+    pairwise short-circuit impedances (vk_xx_percent / vkr_xx_percent, each relative to the smaller rating of its pair), the open-loop
+    data sit at the documented side, the phase shifts at T2 / T3"""
+    def fn(ctx):
+        from . import c12
+        from pandapower.pypower.idx_brch import BR_R, BR_X, BR_B, BR_G, TAP, SHIFT, F_BUS, T_BUS
+        bb = ctx.load("pandapower.build_branch")
+        net = copy.deepcopy(c12._batch_net("current"))
+        net._options["trafo3w_losses"] = loss_side
+        net._options["trafo_model"] = "pi"
+        sn = {w: ctx.var(f"sn_{w}_mva", 5., 100.) for w in ("hv", "mv", "lv")}
+        vk, vkr, vki = {}, {}, {}
+        for w in ("hv", "mv", "lv"):
+            vk[w] = ctx.var(f"vk_{w}_percent", 2., 20.)
+            m = ctx.var(f"m_{w}", 0.5, 0.98)          # vkr = vk (1-m^2)/(1+m^2), vki = vk 2m/(1+m^2): both rational
+            vkr[w] = vk[w] * (1 - m * m) / (1 + m * m)
+            vki[w] = vk[w] * 2 * m / (1 + m * m)
+        i0, nn = ctx.var("i0_percent", 0.0, 2.), ctx.var("n_pfe", 0.05, 0.95)
+        pfe = i0 / 100 * sn[loss_side if loss_side != "star" else "hv"] * (1 - nn * nn) / (1 + nn * nn) * 1000
+        vals = {"i0_percent": i0, "pfe_kw": pfe, "shift_mv_degree": 0.0, "shift_lv_degree": 0.0}
+        for w in ("hv", "mv", "lv"):
+            vals[f"sn_{w}_mva"], vals[f"vk_{w}_percent"], vals[f"vkr_{w}_percent"] = sn[w], vk[w], vkr[w]
+        for c, v in vals.items():
+            setcol(ctx, net.trafo3w, c, [v])
+        net.trafo3w["tap_pos"] = net.trafo3w["tap_neutral"] = 0
+        net.trafo3w["tap_changer_type"] = None
+        base = net.sn_mva
+        ppc = {"bus": ctx.obj(net._ppc["bus"]), "branch": ctx.obj(net._ppc["branch"].real), "baseMVA": base}
+        bb._calc_trafo3w_parameter(net, ppc)
+        f, t = net._pd2ppc_lookups["branch"]["trafo3w"]
+        n3 = len(net.trafo3w)
+        row = {"hv": f, "mv": f + n3, "lv": f + 2 * n3}
+        z = {w: (ppc["branch"][row[w], BR_R], ppc["branch"][row[w], BR_X]) for w in row}
+        for w in row:
+            ctx.eq(f"T_{w}_has_no_off_nominal_ratio_at_neutral_tap", ppc["branch"][row[w], TAP], 1.0)
+        ctx.true("star_topology_T1_hv_to_aux_T2_aux_to_mv_T3_aux_to_lv",
+                 int(ppc["branch"][row["hv"], T_BUS]) == int(ppc["branch"][row["mv"], F_BUS]) == int(ppc["branch"][row["lv"], F_BUS]))
+        # pairwise short-circuit impedances in per unit of the network base (ratio 1, all bus voltages nominal)
+        fmin = lambda a, b_: a if bool(a <= b_) else b_
+        pairs = {"hv": ("hv", "mv"), "mv": ("mv", "lv"), "lv": ("hv", "lv")}
+        for w, (a, b_) in pairs.items():
+            smin = fmin(sn[a], sn[b_])
+            ctx.eq(f"short_circuit_resistance_{a}_{b_}_is_vkr_{w}_percent_on_the_smaller_rating", (z[a][0] + z[b_][0]) * smin * 100, vkr[w] * base)
+            ctx.eq(f"short_circuit_reactance_{a}_{b_}_is_the_imaginary_part_of_vk_{w}_percent", (z[a][1] + z[b_][1]) * smin * 100, vki[w] * base)
+        if loss_side in row:
+            g, b = ppc["branch"][row[loss_side], BR_G], ppc["branch"][row[loss_side], BR_B]
+            ctx.eq("iron_losses_at_the_documented_side", g * base * 1000, pfe)
+            ctx.eq("open_loop_admittance_magnitude_is_i0_percent_of_that_sides_rating", (g * g + b * b) * base * base * 100 * 100, i0 * i0 * sn[loss_side] * sn[loss_side])
+            for w in row:
+                if w != loss_side:
+                    ctx.eq(f"no_open_loop_admittance_at_T_{w}", ppc["branch"][row[w], BR_G] * ppc["branch"][row[w], BR_G] + ppc["branch"][row[w], BR_B] * ppc["branch"][row[w], BR_B], 0.0)
+    return fn
+
+
 def instances(tier):
     out = [Inst("line", make_line(), nvars=20, samples=3, meta=dict(element="line")),
            Inst("dc_model", make_dc(), nvars=30, samples=2, meta=dict(part="DC power flow model")),
@@ -470,6 +526,9 @@ def instances(tier):
         out.append(Inst(f"trafo_{model}_{tct}_{side}", make_trafo(tct, side, model), nvars=30, samples=2, timeout_ms=60000,
                         meta=dict(element="trafo", trafo_model=model, tap_changer_type=tct, tap_side=side, calculate_voltage_angles=True),
                         raises=(UserWarning,)))
+    for ls in ("hv",) + (("mv", "lv") if tier == "thorough" else ()):
+        out.append(Inst(f"trafo3w_star_equivalent_losses_{ls}", make_trafo3w(ls), nvars=30, samples=2, timeout_ms=60000, raises=(UserWarning,),
+                        meta=dict(element="trafo3w", trafo3w_losses=ls)))
     out.append(Inst("trafo_pi_Ratio_hv_noangles", make_trafo("Ratio", "hv", "pi", cva=False), nvars=30, samples=2,
                     meta=dict(element="trafo", trafo_model="pi", tap_changer_type="Ratio", tap_side="hv", calculate_voltage_angles=False)))
     return out
